@@ -61,11 +61,13 @@ def check(ctx, run):
     g = lambda n: cv(f, n)
     # ---- R12.1
     slice_eq_users = []
-    for fn in ('functions::contains_jsonb', 'functions::array_contains', 'functions::contains_jsonb::{closure#0}', 'functions::contains_jsonb::{closure#1}'):
+    if 'functions::contains_jsonb' not in f.bodies:
+        run.undecided('R12.1', 'functions::contains_jsonb', 'body', 'function not found (anchor lost)')
+    walker = sorted(x for x in ctx.cg.reachable(['functions::contains_jsonb']) if x in f.bodies and x.startswith('functions::')
+                    and not x.startswith('functions::scalar_eq') and not x.startswith('functions::read_u32'))
+    for fn in walker:
         b = f.bodies.get(fn)
-        if b is None:
-            if 'closure' not in fn:
-                run.undecided('R12.1', fn, 'body', 'function not found (anchor lost)')
+        if b is None or b.kind == 'Promoted':
             continue
         for bb, t in b.calls():
             nm = callee_name(t)
@@ -100,7 +102,8 @@ def check(ctx, run):
         ok = num_ok and not raw_for_num
         (run.proved if ok else run.violation)('R12.1', b.path, 'numbers', 'NUMBER_TAG payloads are decoded and compared with Number ==' if ok else
                                                'two decodable numbers are not compared as numbers in scalar_eq', f'{b.file}:{b.line}')
-        users = sorted(c for c, tg in ctx.cg.edges.items() if 'functions::scalar_eq' in tg)
+        import re as _re
+        users = sorted({_re.sub(r'(::\{closure#\d+\})+$', '', c) for c, tg in ctx.cg.edges.items() if 'functions::scalar_eq' in tg})
         ok = {'functions::contains_jsonb', 'functions::array_contains'} <= set(users)
         (run.proved if ok else run.violation)('R12.1', 'functions::scalar_eq', 'used-by', f'used by {users}' if ok else f'scalar_eq is only used by {users}: some scalar comparison of the walker bypasses it')
     numcodec.r18_4(ctx, run, rule='R12.1/R18.4')
@@ -147,16 +150,25 @@ def check(ctx, run):
         (run.proved if first is not None else run.violation)('R12.2', b.path, 'special-case', 'left.is_array() && right.is_scalar() is tested first' if first is not None else
                                                               'the array-contains-scalar special case is not the first test', f'{b.file}:{b.line}')
     # byte twin: candidate filter depends on the entry kind only
-    cb = f.bodies.get('functions::contains_jsonb::{closure#0}')
-    if cb is None:
-        run.undecided('R12.2', 'functions::contains_jsonb', 'candidate-filter', 'filter closure not found (anchor lost)')
-    else:
+    # (any closure of contains_jsonb whose result tests an entry kind against CONTAINER_TAG is a candidate filter)
+    filters = []
+    for pth, cb in sorted(f.bodies.items()):
+        if not pth.startswith('functions::contains_jsonb::{closure') or cb.kind == 'Promoted' or cb.local_ty(0).get('s') != 'bool':
+            continue
         ps, _ = explore(cb)
         rets = [p for p in ps if p.end[0] == 'return']
+        mentions = any(any(const_of(x) == g('CONTAINER_TAG') for x in (s_[2], s_[3])) for p in rets for t_ in ([p.ret] + [c[0] for c in p.conds])
+                       for s_ in subterms(t_) if s_[0] == 'bin' and s_[1] in ('Eq', 'Ne'))
+        if mentions:
+            filters.append((cb, rets))
+    if not filters:
+        run.undecided('R12.2', 'functions::contains_jsonb', 'candidate-filter', 'no closure of contains_jsonb that selects container elements by their entry kind was found: '
+                      'how candidates for a nested container are chosen is not decided')
+    for cb, rets in filters:
         ok = len(rets) == 1 and not rets[0].conds
         if ok:
             r = rets[0].ret
-            ok = r[0] == 'bin' and r[1] == 'Eq' and any(const_of(x) == g('CONTAINER_TAG') for x in (r[2], r[3])) and 'type_code' in show(r)
+            ok = r[0] == 'bin' and r[1] == 'Eq' and any(const_of(x) == g('CONTAINER_TAG') for x in (r[2], r[3]))
         (run.proved if ok else run.violation)('R12.2', cb.path, 'candidate-filter', 'candidates for a nested container are all container elements of the left array' if ok else
                                                'the candidate filter for nested containers tests more than the entry kind (e.g. sizes): containment ignores multiplicity and number '
                                                'encoding width, so a longer right container can still be contained', f'{cb.file}:{cb.line}')
